@@ -46,6 +46,11 @@ func NewSession(info Info, sessionID []byte, pl *pool.Pool, auxInfo ...hash.Writ
 		return nil, errors.New("session: partyIDs invalid")
 	}
 
+	// every party needs an identifier that the protocols can work with
+	if err := validateIDs(partyIDs, info.Group); err != nil {
+		return nil, err
+	}
+
 	// verify our ID is present
 	if !partyIDs.Contains(info.SelfID) {
 		return nil, errors.New("session: selfID not included in partyIDs")
@@ -114,6 +119,35 @@ func NewSession(info Info, sessionID []byte, pl *pool.Pool, auxInfo ...hash.Writ
 		ssid:          h.Clone().Sum(),
 		hash:          h,
 	}, nil
+}
+
+// validateIDs makes sure that no ID is empty (the empty ID denotes "everyone" in a message header)
+// and, when a group is given, that the IDs map to non-zero, pairwise different scalars:
+// secret polynomials are evaluated and interpolated at these scalars, so a zero scalar
+// would receive the secret itself and two equal scalars make interpolation impossible.
+func validateIDs(partyIDs party.IDSlice, group curve.Curve) error {
+	scalars := make(map[string]party.ID, len(partyIDs))
+	for _, id := range partyIDs {
+		if id == "" {
+			return errors.New("session: partyIDs contains an empty ID")
+		}
+		if group == nil {
+			continue
+		}
+		x := id.Scalar(group)
+		if x.IsZero() {
+			return fmt.Errorf("session: party ID %q maps to the zero scalar", string(id))
+		}
+		data, err := x.MarshalBinary()
+		if err != nil {
+			return fmt.Errorf("session: party ID %q: %w", string(id), err)
+		}
+		if other, ok := scalars[string(data)]; ok {
+			return fmt.Errorf("session: party IDs %q and %q map to the same scalar", string(other), string(id))
+		}
+		scalars[string(data)] = id
+	}
+	return nil
 }
 
 // HashForID returns a clone of the hash.Hash for this session, initialized with the given id.
